@@ -799,7 +799,11 @@ func c20Driver(d *core.Driver) int {
 		}
 		return seen
 	}
+	roundsAborted := false
 	concRound := func(round int, gp [2]int, shared bool) {
+		if roundsAborted {
+			return
+		}
 		tag, logName := "C", "race.log"
 		if shared {
 			tag, logName = "S", "race-shared.log"
@@ -807,9 +811,13 @@ func c20Driver(d *core.Driver) int {
 		seed := d.Seed + int64(round)
 		name := fmt.Sprintf("%s-round%d-g%d-p%d", tag, round, gp[0], gp[1])
 		r, e := runChild(raceBin, name, map[string]any{"Mode": "concurrent", "Seed": seed, "Reps": reps, "G": gp[0], "Procs": gp[1], "Ref": "", "SharedPDF": shared},
-			[]string{"GORACE=halt_on_error=0 log_path=" + filepath.Join(work, logName)}, 20*time.Minute)
+			[]string{"GORACE=halt_on_error=0 log_path=" + filepath.Join(work, logName)}, 8*time.Minute)
 		if r == nil {
+			// a round takes 10-40 s on its own; the watchdog is a wall-clock bound 12 times that. A round
+			// that dies or never returns is a violation (a call "returns what it returns when run alone");
+			// the remaining rounds are not run: each further hang would cost another watchdog period
 			viol("concurrent round %s%d (%d goroutines, GOMAXPROCS %d) did not complete: %s", tag, round, gp[0], gp[1], e)
+			roundsAborted = true
 			return
 		}
 		// results of concurrent executions vs the sequential reference of the same seed
